@@ -307,6 +307,8 @@ def cases(tier):
     combos += [c for c in itertools.combinations(range(len(DEVS)), 2)]
     if tier != "quick":
         combos += [c for c in itertools.combinations(REDUCED, 3)]
+    yield dict(devs=[], fmt="mmCIF", opt=0, big_header=True)
+    yield dict(devs=[0], fmt="mmCIF", opt=1, big_header=True)
     seen = set()
     for c in combos:
         if c in seen:
@@ -378,6 +380,13 @@ def run_case(case):
         if case.get("variant"):
             text = enumio.pdb_variant(text, case["variant"])
         ext = ".pdb"
+    elif case.get("big_header"):
+        # more than a megabyte of other categories in front of the atom_site loop (as in ribosome-size entries)
+        V = lambda x: ("v", str(x))
+        rows = [(V(k + 1), V("Structure model"), V("repository"), V("Initial release of coordinates and structure factors number %06d" % k)) for k in range(14000)]
+        text = enumio.emit_cif(t, extra_categories={"pdbx_audit_revision_details": (["ordinal", "data_content_type", "provider", "description"], rows)}, **CIF_OPTS[case["opt"]])
+        assert text.index("_atom_site.") > (1 << 20), text.index("_atom_site.")
+        ext = ".cif"
     else:
         text = enumio.emit_cif(t, **CIF_OPTS[case["opt"]])
         if case.get("variant"):
